@@ -99,6 +99,33 @@ fn main() {
             let ag = gtv::genr::grammar::parse_simple(args.get(2).unwrap());
             println!("{}", serde_json::to_string(&ag).unwrap());
         }
+        "decodebench" => {
+            // time decode() on pseudo-random streams; report slow ones
+            let p = gtv::props::by_id(args.get(2).unwrap()).unwrap();
+            let n: usize = args.get(3).and_then(|x| x.parse().ok()).unwrap_or(1000);
+            let mut x: u64 = 12345;
+            for i in 0..n {
+                let len = p.stream_len(Tier::Quick);
+                let mut stream = vec![];
+                for _ in 0..len {
+                    x = x.wrapping_add(0x9E3779B97F4A7C15);
+                    let mut z = x;
+                    z = (z ^ (z >> 30)).wrapping_mul(0xBF58476D1CE4E5B9);
+                    z = (z ^ (z >> 27)).wrapping_mul(0x94D049BB133111EB);
+                    z ^= z >> 31;
+                    stream.push(z as u32);
+                }
+                let t = std::time::Instant::now();
+                let v = p.decode(&stream, Tier::Quick);
+                let d = t.elapsed();
+                if d.as_millis() > 50 {
+                    println!("case {i}: decode took {:?}; json len {}", d, v.to_string().len());
+                    std::fs::write(format!("/tmp/slow_{i}.json"), v.to_string()).unwrap();
+                }
+            }
+        }
+        "ctstep" => gtv::ctstep::ctstep_main(),
+        "digest" => gtv::props::c15::digest_main(),
         "dbg" => {
             // in-process evaluation of a stored case (for debugging hangs with gdb)
             let Some(f) = args.get(2) else { usage() };
